@@ -196,7 +196,8 @@ StepOpaque(P, orc, m, op) ==
             ELSE IF op.n = "memref.copy" THEN <<m.uf, (outs[1] :> rt[1]) @@ m.cont>>
             ELSE WriteTerms(m.uf, m.cont, outs, <<"term", <<op.sv[1]>>, rt>>, 1, <<>>)
       m1 == Log([m EXCEPT !.uf = wr[1], !.cont = wr[2]],
-                [k |-> "op", i |-> m.pc, n |-> op.n, s |-> op.sv, vals |-> vals, iv |-> op.iv, rt |-> rt])
+                [k |-> "op", i |-> m.pc, n |-> op.n, s |-> op.sv, vals |-> vals, iv |-> op.iv, rt |-> rt,
+                 ams |-> [j \in DOMAIN op.a |-> P.msp[op.a[j]]]])
       m2 == IF HasAccfgEffects(op)
             THEN [m1 EXCEPT !.regs = HavocAll(@), !.cur = [a \in DOMAIN @ |-> 0]] ELSE m1
   IN Adv(Def(P, [m2 EXCEPT !.ocur = @ + Len(op.r)], op.r, res))
@@ -287,7 +288,8 @@ CountMarks(stat, mark) == Cardinality({i \in DOMAIN stat : stat[i] = mark})
 StepAlloc(P, m, op) ==
   LET sizes == Resolve(op.iv, Vals(m, op.a), -1, 1, <<>>)
       key == IF P.allocsite = 1 THEN sizes \o <<-1 - m.nalloc>> ELSE sizes
-      t == InternAll(m.uf, <<"alloc", <<op.sv[1]>>, key>>, 1, <<>>) IN
+      tys == IF P.allocsite = 1 THEN <<>> ELSE <<op.sv[1]>>     \* an instance is identified by its number alone
+      t == InternAll(m.uf, <<"alloc", tys, key>>, 1, <<>>) IN
   Adv(Def(P, [m EXCEPT !.uf = t[1], !.nalloc = @ + 1], op.r, t[2]))
 
 StepSubview(P, m, op) ==
@@ -331,7 +333,7 @@ StepDma(P, orc, m, op) ==
       two == op.sv[1] = "snax_dma_2d_transfer"
       s == v[1]  d == v[2]  n == v[3]
       ss == IF two THEN v[4] ELSE 0  ds == IF two THEN v[5] ELSE 0  rep == IF two THEN v[6] ELSE 1
-      m1 == Log(m, [k |-> "op", i |-> m.pc, n |-> op.n, s |-> op.sv, vals |-> v, iv |-> op.iv, rt |-> <<>>]) IN
+      m1 == Log(m, [k |-> "op", i |-> m.pc, n |-> op.n, s |-> op.sv, vals |-> v, iv |-> op.iv, rt |-> <<>>, ams |-> <<>>]) IN
   IF n < 0 \/ rep < 0 THEN Fault(m1, "DmaNegativeSize")
   ELSE IF rep > 0 /\ n > 0 /\ ~(\A r \in 0..(rep - 1) : InMem(m, s + r * ss, n) /\ InMem(m, d + r * ds, n)) THEN Fault(m1, "DmaOutOfMemory")
   ELSE Adv([m1 EXCEPT !.mem = Copy2(@, s, d, n, ss, ds, rep),
